@@ -322,10 +322,10 @@ Section Tee.
     Core (mkT (tmode s) (tsrc s) (tcells s) (towner s) (twait s) (upd (tlink s) c (S (tlink s c)))
               (upd (tyielded s) c true) (upd (tphase s) c (if direct then TIdle else TRetSh v)) (tn s)
               (if direct then upd (tseen s) c (tseen s c ++ [v]) else tseen s) (tstopped s) (tpolled s)
-              (tstart s) (tcks s) (tlocks s)).
+              (tstart s) (tcks s) (tlocks s) (tchk s) (tyld s)).
   Proof.
     intros H Hc Hcell. core_fields H.
-    set (s' := mkT _ _ _ _ _ _ _ _ _ _ _ _ _ _ _).
+    set (s' := mkT _ _ _ _ _ _ _ _ _ _ _ _ _ _ _ _ _).
     assert (Hp' : pending s' = pending s).
     { unfold pending, s'. cbn. apply pending_set. intros _. rewrite Hc. now destruct direct. }
     assert (Hnw : ~ In c (twait s)) by (intros I; specialize (Hwait c I); congruence).
@@ -492,6 +492,9 @@ Section Tee.
   Lemma bump_core s c n : Core s -> Core (t_bump s c n).
   Proof. intros H. destruct H. constructor; assumption. Qed.
 
+  Lemma bump2_core s c n m : Core s -> Core (t_bump2 s c n m).
+  Proof. intros H. destruct H. constructor; assumption. Qed.
+
   Lemma step0_inv s o : TInv s -> Fresh s -> TInv (fst (fst (tstep0 s o))).
   Proof.
     intros [H HO] HF.
@@ -590,7 +593,7 @@ Section Tee.
     intros [HI HF]. unfold tstep1, tstep.
     pose proof (step0_inv s o HI HF) as [HC HO]. pose proof (fresh_step0 s o HF) as HF'.
     destruct (tstep0 s o) as [[s1 r] ev]. cbn [fst] in *.
-    split; [split; [now apply bump_core|exact HO]|exact HF'].
+    split; [split; [now apply bump2_core, bump_core|exact HO]|exact HF'].
   Qed.
 
   Lemma run_inv2 mode n ops : TInv2 (trun mode src0 n ops).
@@ -775,7 +778,7 @@ Proof. vm_compute. auto. Qed.
    functions or inside Lock.acquire - except a StopAsyncIteration delivered to a consumer that was already given
    an element (whose earlier calls did). *)
 Lemma next_checkpoints0 : forall s c s' r ev, tstep0 s (TNext c) = (s', r, ev) -> r <> TRejected ->
-  (r = TBlocked /\ (has_ck ev = true \/ tphase s' c = TLockYield \/ tphase s' c = TLockWait)) \/
+  (r = TBlocked /\ (passes_ck ev = true \/ tphase s' c = TLockYield \/ tphase s' c = TLockWait)) \/
   (r = TStop /\ tyielded s c = true).
 Proof.
   intros s c s' r ev H Hr. unfold tstep0, t_finish in H.
@@ -785,7 +788,7 @@ Proof.
 Qed.
 
 Theorem tee_next_checkpoints : forall s c s' r ev, tstep s (TNext c) = (s', r, ev) -> r <> TRejected ->
-  (r = TBlocked /\ (has_ck ev = true \/ tphase s' c = TLockYield \/ tphase s' c = TLockWait)) \/
+  (r = TBlocked /\ (passes_ck ev = true \/ tphase s' c = TLockYield \/ tphase s' c = TLockWait)) \/
   (r = TStop /\ tyielded s c = true).
 Proof.
   intros s c s' r ev H Hr. unfold tstep in H. destruct (tstep0 s (TNext c)) as [[s1 r1] ev1] eqn:E.
@@ -918,6 +921,8 @@ Qed.
 
 Lemma bump_live s c n : Live s -> Live (t_bump s c n).
 Proof. intros [A B C]. constructor; assumption. Qed.
+Lemma bump2_live s c n m : Live s -> Live (t_bump2 s c n m).
+Proof. intros [A B C]. constructor; assumption. Qed.
 
 Lemma run_live src mode n ops : Live (trun mode src n ops).
 Proof.
@@ -925,7 +930,7 @@ Proof.
   assert (G : forall ops s, TInv2 src s /\ Live s -> TInv2 src (final tstep1 s ops) /\ Live (final tstep1 s ops)).
   { clear. induction ops as [|o r IH]; intros s H; [exact H|]. cbn. apply IH. destruct H as [HI HL]. split.
     - now apply step_inv.
-    - unfold tstep1, tstep. destruct (tstep0 s o) as [[s1 rr] ev] eqn:E. cbn [fst]. apply bump_live.
+    - unfold tstep1, tstep. destruct (tstep0 s o) as [[s1 rr] ev] eqn:E. cbn [fst]. apply bump2_live, bump_live.
       replace s1 with (fst (fst (tstep0 s o))) by now rewrite E.
       destruct HI as [[HC _] _]. apply live_step; [exact HL|apply (c_yield _ _ HC)|].
       intros c x Ex. now destruct (c_fill _ _ HC c x Ex). }
@@ -1147,3 +1152,89 @@ Example tee_copy_of_advanced :
   (tstart s 1, tstart s 2) = (1, 1) /\ (tseen s 0, tseen s 1, tseen s 2) = ([7], [8], [8])%Z /\
   (tstopped s 1, tstopped s 2) = (true, true).
 Proof. vm_compute. repeat split. Qed.
+
+(* ------------------------------------------------------------------------------------------------ *)
+(* checks and yields counted separately: every logged checkpoint event of a tee consumer comes with both a
+   cancellation check and a real yield (the segments log [], [Ck] or [CkIf; Sh]) *)
+Lemma release_counts s :
+  tcks (t_release s) = tcks s /\ tchk (t_release s) = tchk s /\ tyld (t_release s) = tyld s.
+Proof. unfold t_release. destruct (twait s); auto. Qed.
+
+Definition Pair (s : tst) : Prop := forall c, 1 <= tcks s c -> 1 <= tchk s c /\ 1 <= tyld s c.
+
+Lemma pair_step s o : Pair s -> Pair (fst (fst (tstep s o))).
+Proof.
+  intros P j. specialize (P j). unfold tstep. destruct (tstep0 s o) as [[s1 r] ev] eqn:E. cbn [fst].
+  destruct o as [c|c|c k];
+    unfold tstep0, t_locked, t_fill, t_finish in E;
+    repeat match type of E with
+           | context [match ?x with _ => _ end] => destruct x eqn:?
+           end; inversion E; subst; clear E;
+    cbn -[t_release];
+    repeat match goal with
+           | |- context [t_release ?x] =>
+               let H := fresh in
+               pose proof (release_counts x) as H; destruct H as (?E1 & ?E2 & ?E3); rewrite ?E1, ?E2, ?E3; clear E1 E2 E3
+           end;
+    cbn -[t_release]; unfold upd, on_new;
+    repeat match goal with
+           | |- context [if Nat.eqb ?x ?y then _ else _] => destruct (Nat.eqb_spec x y); subst
+           end;
+    repeat match goal with
+           | |- context [if ?b then _ else _] => destruct b
+           end; cbn; lia.
+Qed.
+
+Lemma run_pair src mode n ops : Pair (trun mode src n ops).
+Proof.
+  unfold trun.
+  assert (G : forall ops s, Pair s -> Pair (final tstep1 s ops)).
+  { clear. induction ops as [|o r IH]; intros s H; [exact H|]. cbn. apply IH.
+    unfold tstep1. pose proof (pair_step s o H) as Hs. destruct (tstep s o) as [[s1 rr] ev]. exact Hs. }
+  apply G. intros c H. cbn in H. lia.
+Qed.
+
+(* the per-consumer clause with "passes a checkpoint" = a cancellation check AND a yield: a stopped consumer whose
+   traversal yielded nothing logged both; any stopped consumer logged both or went through Lock.acquire() *)
+Theorem tee_consumer_passes_checkpoint : forall mode src n ops c,
+  let s := trun mode src n ops in
+  tstopped s c = true ->
+  (tseen s c = [] -> 1 <= tchk s c /\ 1 <= tyld s c) /\
+  ((1 <= tchk s c /\ 1 <= tyld s c) \/ 1 <= tlocks s c).
+Proof.
+  intros mode src n ops c s Hs.
+  destruct (tee_consumer_checkpoints mode src n ops c Hs) as [A B]. fold s in A, B.
+  pose proof (run_pair src mode n ops c) as P. fold s in P.
+  split; [intros E; apply P, A, E|].
+  destruct (Nat.eq_dec (tcks s c) 0) as [Z|Z]; [right; lia|left; apply P; lia].
+Qed.
+
+(* the counters are what the segments logged *)
+Theorem tee_checks_yields_logged : forall s o s' r ev, tstep s o = (s', r, ev) ->
+  match o with
+  | TCopy _ _ => True
+  | _ => tchk s' (op_consumer o) = tchk s (op_consumer o) + count_check ev /\
+         tyld s' (op_consumer o) = tyld s (op_consumer o) + count_yield ev
+  end.
+Proof.
+  intros s o s' r ev H. unfold tstep in H. destruct (tstep0 s o) as [[s1 r1] ev1] eqn:E.
+  inversion H; subst; clear H.
+  destruct o as [c|c|c k]; [| |exact I]; cbn [op_consumer];
+    unfold tstep0, t_locked, t_fill, t_finish in E;
+    repeat match type of E with
+           | context [match ?x with _ => _ end] => destruct x eqn:?
+           end; inversion E; subst; clear E;
+    cbn -[t_release];
+    repeat match goal with
+           | |- context [t_release ?x] =>
+               let H := fresh in
+               pose proof (release_counts x) as H; destruct H as (?E1 & ?E2 & ?E3); rewrite ?E1, ?E2, ?E3; clear E1 E2 E3
+           end;
+    cbn -[t_release]; rewrite ?upd_same; split; reflexivity.
+Qed.
+
+Example tee_copy_after_exhaustion_checks :
+  let ops := [TNext 0; TResume 0; TResume 0; TNext 0; TResume 0; TResume 0; TCopy 0 1; TNext 1; TResume 1] in
+  let s := trun 0 [7]%Z 1 ops in
+  (tseen s 1, tstopped s 1) = ([], true) /\ (tchk s 1, tyld s 1) = (1, 1).
+Proof. vm_compute. auto. Qed.
